@@ -20,6 +20,18 @@ Definition sgops (ispg : Z) (n : v3) : list gridop :=
   | None => []
   end.
 
-Definition setup_sg := setup sgops.
 Definition row_check_grid_factors (i : Z) (n : v3) : bool :=
   let '(nu, nv, nw) := n in check_grid_factors (row_gops (row_at i)) nu nv nw.
+
+(* check_grid_factors(grid.spacegroup, size) for the header's space group *)
+Definition sg_compat (ispg : Z) (n : v3) : bool :=
+  match find_spacegroup_by_number sg_table ispg with
+  | Some i => row_check_grid_factors i n
+  | None => true
+  end.
+Definition no_compat (ispg : Z) (n : v3) : bool := true.
+(* compatibility test in setup() before symmetrize_nondefault: none in the original code *)
+Definition setup_compat := no_compat.
+
+Definition setup_sg := setup_gen setup_core setup_compat sgops.
+Definition setup_sg_orig := setup_gen setup_core_orig no_compat sgops.
